@@ -125,7 +125,7 @@ class C05(Prop):
         numbers = st.one_of(gens.finite_doubles(), gens.finite_doubles(), gens.top_doubles(),
                             st.sampled_from([math.inf, -math.inf, math.nan]),
                             st.integers(-2 ** 31 - 2, 2 ** 31 + 2).map(float))
-        strings = gens.with_long(st.one_of(gens.utf8_strings(10), gens.escapey_strings(), gens.utf8_strings(3)))
+        strings = gens.with_long(st.one_of(gens.utf8_strings(10), gens.escapey_strings(), gens.utf8_strings(3)), 12)
         leaves = gens.scalars_built(strings=strings, numbers=numbers)
         keys = st.one_of(gens.utf8_strings(5), gens.ascii_keys(3), gens.escapey_strings(4))
         deep = st.tuples(st.sampled_from(["[", "{", "[{", "{[", "{{["]), st.sampled_from([15, 16, 17, 18, 31, 32, 33, 40, 64, 65, 128, 300]), leaves).map(
@@ -133,6 +133,7 @@ class C05(Prop):
         tree = st.one_of(gens.shaped_documents(leaves, keys, max_leaves=16, min_leaves=2),
                          gens.shaped_documents(leaves, keys, max_leaves=5),
                          leaves, deep)
+        tree = gens.weighted((15, tree), (1, gens.long_string_documents(gens.shaped_documents(leaves, keys, max_leaves=3))))
         return st.fixed_dictionaries({"jv": tree, "rseed": st.integers(0, 2 ** 31)})
 
     def run_case(self, lib, case, stats):
